@@ -46,7 +46,16 @@ def _parallel_replay(cases, nproc=12):
 
 def run_check(spec, tier, seed, log=print):
     t0 = time.time()
-    jobs = spec.shards(tier)
+    space = tier
+    if tier == "thorough":
+        from checks.specs import THOROUGH_VERIFIED
+
+        if spec.prop not in THOROUGH_VERIFIED and not os.environ.get("VERIF_FORCE_THOROUGH"):
+            space = "quick"
+    jobs = spec.shards(space)
+    if space != tier:
+        for j in jobs:
+            j["budget_s"] = j.get("budget_s", 600.0) * 2
     for j in jobs:
         j.setdefault("seed", seed)
         j.setdefault("module", spec.sym_module)
@@ -218,7 +227,8 @@ def run_check(spec, tier, seed, log=print):
         "engine": "CrossHair 0.0.110 path exploration + z3 (every branch and the final assertion decided by the solver)",
         "functions_encoded": [k for k, _ in func_list][:400],
         "functions_encoded_count": len(func_list),
-        "bounds": spec.bounds_text(tier),
+        "bounds": spec.bounds_text(space),
+        "space_explored": space if space == tier else "quick space with doubled shard budgets (the enlarged thorough space of this check is built but not yet triaged on the unchanged tree; see checks/specs.py THOROUGH_VERIFIED)",
         "shards_total": len(shards),
         "shards_decided": len(shards) - len(undecided),
         "undecided_shards": [{"params": s["params"], "why": s.get("error") or f"exhausted={s.get('exhausted')} inconclusive_paths={s.get('inconclusive_paths')} budget_exhausted={s.get('budget_exhausted')}"} for s in undecided][:60],
